@@ -202,7 +202,7 @@ def main():
         corpus = json.load(open(os.path.join(HERE, 'replay', 'corpus.json')))['scenarios']
         props_of = {k['id']: k.get('properties', []) for k in kfs}
         for sc in corpus:
-            if pid not in props_of.get(sc['finding'], []):
+            if pid not in (sc.get('properties') or props_of.get(sc['finding'], [])):
                 continue
             r = replay_registry.run_native(sc['script'], [])
             corpus_report.append({'script': sc['script'], 'finding': sc['finding'], 'expected_exit': sc['expect'], 'exit': r['exit']})
